@@ -140,7 +140,8 @@ func (askSelf *AskDef[T, R]) NewByOptions(message T, ioCh chan R) *AskDef[T, R] 
 
 // AskNewGenerics New Ask instance
 func AskNewGenerics[T any, R any](message T) *AskDef[T, R] {
-	return AskNewByOptionsGenerics[T, R](message, make(chan R))
+	// Buffered: a Reply arriving after AskOnceWithTimeout gave up must not block the replying Actor
+	return AskNewByOptionsGenerics[T, R](message, make(chan R, 1))
 }
 
 // AskNewByOptionsGenerics New Ask by its options
@@ -167,11 +168,12 @@ func (askSelf *AskDef[T, R]) AskOnce(target ActorHandle[interface{}]) R {
 // AskOnceWithTimeout Sender Ask with timeout
 func (askSelf *AskDef[T, R]) AskOnceWithTimeout(target ActorHandle[interface{}], timeout time.Duration) (R, error) {
 	ch := askSelf.AskChannel(target)
-	defer close(ch)
 	var result R
 	select {
 	case result = <-ch:
+		close(ch)
 	case <-time.After(timeout):
+		// Do not close ch here: the Actor may still Reply later, and a send on a closed channel panics
 		return result, ErrActorAskTimeout
 	}
 
